@@ -531,6 +531,17 @@ def r06_10(ctx: Ctx):
     return who_may_evaluate(ctx, "R06.10")
 
 
+def r06_11(ctx: Ctx):
+    """R06.11 a freshly sprouted deme runs in the following metaepoch: the sprouting round never puts a deme it has just created to sleep (shared with R18.4)."""
+    from . import c18
+
+    out = []
+    for o in c18.r18_4(ctx):
+        o.rule = "R06.11"
+        out.append(o)
+    return out
+
+
 RULES = [
     ("R06.1", r06_1, 10),
     ("R06.2", r06_2, 5),
@@ -542,4 +553,5 @@ RULES = [
     ("R06.8", r06_8, 1),
     ("R06.9", r06_9, 7),
     ("R06.10", r06_10, 1),
+    ("R06.11", r06_11, 1),
 ]
